@@ -89,11 +89,15 @@ class BosonicBackend(BaseBosonic):
 
     # pylint: disable=too-many-branches
     # pylint: disable=import-outside-toplevel
-    def run_prog(self, prog, **kwargs):
+    def run_prog(self, prog, continuation=False, **kwargs):
         """Runs a strawberryfields program using the bosonic backend.
 
         Args:
             prog (object): sf.Program instance
+            continuation (bool): If True, the program is a further segment of the computation
+                held by the backend: the circuit is not initialised again, new modes are added when
+                their ``New`` command is reached, and non-Gaussian state preparations (which are
+                only handled by the initialisation pass) are refused.
 
         Returns:
             tuple: a tuple of the list of applied commands and the dictionary of measurement samples
@@ -114,7 +118,7 @@ class BosonicBackend(BaseBosonic):
         )
 
         # If a circuit exists, initialize the circuit. This applies all non-Gaussian state-prep
-        if prog.circuit:
+        if prog.circuit and not continuation:
             self.init_circuit(prog)
 
         # Apply operations to circuit. For now, copied from LocalEngine;
@@ -147,6 +151,19 @@ class BosonicBackend(BaseBosonic):
                             self.ancillae_samples_dict[r.ind].append(val)
 
                 applied.append(cmd)
+
+            elif continuation and isinstance(cmd.op, _New_modes):
+                # no initialisation pass: add the modes (in the vacuum state) here
+                cmd.op.apply(cmd.reg, self, **kwargs)
+                applied.append(cmd)
+
+            elif continuation and isinstance(cmd.op, non_gauss_preps):
+                raise NotImplementedError(
+                    "The operation {} is a non-Gaussian state preparation, which the bosonic backend "
+                    "only supports in the first program of a computation.".format(
+                        cmd.op.__class__.__name__
+                    )
+                )
 
             # Rest of operations applied as normal
             elif not isinstance(cmd.op, non_gauss_preps):
